@@ -53,6 +53,17 @@ class Int:
         return 'Int(%s,[%s,%s])' % (self.ty, self.lo, self.hi)
 
 
+class Lanes:
+    """an unsigned word kept as its bytes (least significant first), for SWAR code: each lane is an Int in [0, 255]"""
+    __slots__ = ('ty', 'lanes')
+
+    def __init__(self, ty, lanes):
+        self.ty, self.lanes = ty, tuple(lanes)
+
+    def __repr__(self):
+        return 'Lanes(%s,%d)' % (self.ty, len(self.lanes))
+
+
 class Agg:
     """struct / tuple / enum variant / array / closure value (immutable)"""
     __slots__ = ('kind', 'variant', 'fields')
@@ -527,6 +538,38 @@ class State:
                 self._jset('bounds', a, (nlo, nhi))
         if nlo is not None and nlo == nhi:
             self._add_equality(padd(q, pconst(nlo), -1))
+        elif not single and (nlo, nhi) != (clo, chi) and 2 <= len(q) <= 10 and all(len(m_) == 1 for m_ in q):
+            self._propagate_linear(q, nlo, nhi)
+
+    def _propagate_linear(self, q, lo, hi):
+        """bound propagation for a linear form lo <= sum c_i x_i <= hi: each atom's bound from the others' (one round)"""
+        items = []
+        for m_, c in q.items():
+            b = self.bounds.get(m_[0])
+            if b is None:
+                return
+            items.append((m_[0], c, b[0], b[1]))
+        tmin = sum(c * (l if c > 0 else h) for _, c, l, h in items)
+        tmax = sum(c * (h if c > 0 else l) for _, c, l, h in items)
+        for a, c, l, h in items:
+            omin = tmin - c * (l if c > 0 else h)
+            omax = tmax - c * (h if c > 0 else l)
+            nl, nh = l, h
+            # c*x <= hi - omin ; c*x >= lo - omax
+            if hi is not None:
+                if c > 0:
+                    nh = min(nh, (hi - omin) // c)
+                else:
+                    nl = max(nl, -((hi - omin) // -c))
+            if lo is not None:
+                if c > 0:
+                    nl = max(nl, -((-(lo - omax)) // c))
+                else:
+                    nh = min(nh, (lo - omax) // c)
+            if nl > nh:
+                raise Infeasible()
+            if (nl, nh) != (l, h) and a not in self.subst:
+                self.constrain((((a,), 1),), {(a,): 1}, nl, nh)
 
     def _add_equality(self, p):
         """p == 0: eliminate the oldest atom that occurs with unit coefficient in a linear monomial only"""
@@ -1561,7 +1604,62 @@ class Interp:
             return self.mk(st, ty, p)
         return st.fresh(ty, tag=tag)
 
+    # ------------------------------------------------------------ SWAR: words as byte lanes (no forking: undecided carries make lanes unknown)
+    def lanes_to_int(self, st, v):
+        p = {}
+        for j, l in enumerate(v.lanes):
+            p = padd(p, pscale(l.p, 256 ** j))
+        return self.mk(st, v.ty, p)
+
+    def const_lanes(self, c, n):
+        return [K((c >> (8 * j)) & 255, 'u8') for j in range(n)]
+
+    def lanes_bitop(self, st, op, a, b):
+        n = len(a.lanes) if isinstance(a, Lanes) else len(b.lanes)
+        la = a.lanes if isinstance(a, Lanes) else self.const_lanes(st.itv(a)[0], n)
+        lb = b.lanes if isinstance(b, Lanes) else self.const_lanes(st.itv(b)[0], n)
+        return Lanes(a.ty if isinstance(a, Lanes) else b.ty, [self.bitop(st, op, x, y, 'u8') for x, y in zip(la, lb)])
+
+    def lanes_addsub(self, st, a, c, sub):
+        """a (Lanes) +- c (constant), wrapping at the word size, lane by lane with carry / borrow decided by intervals (else: unknown lanes from there on)"""
+        n = len(a.lanes)
+        cl = self.const_lanes(c, n)
+        out = []
+        carry = 0           # 0 / 1 known, None unknown
+        for x, cj in zip(a.lanes, cl):
+            if carry is None:
+                out.append(st.fresh('u8', 0, 255, 'lane'))
+                continue
+            k = st.itv(cj)[0] + carry
+            p = padd(x.p, pconst(k), -1 if sub else 1)
+            lo, hi = st.range_of(p)
+            if lo is not None and lo >= 0 and hi <= 255:
+                out.append(self.mk(st, 'u8', p, lo, hi))
+                carry = 0
+            elif sub and hi is not None and hi < 0 and lo >= -256:
+                out.append(self.mk(st, 'u8', padd(p, pconst(256)), lo + 256, hi + 256))
+                carry = 1
+            elif not sub and lo is not None and lo >= 256 and hi <= 511:
+                out.append(self.mk(st, 'u8', padd(p, pconst(256), -1), lo - 256, hi - 256))
+                carry = 1
+            else:
+                out.append(st.fresh('u8', 0, 255, 'lane'))
+                carry = None
+        return Lanes(a.ty, out)
+
     def binop(self, st, op, a, b, ty):
+        if isinstance(a, Lanes) or isinstance(b, Lanes):
+            const_b = isinstance(b, Int) and st.itv(b)[0] == st.itv(b)[1]
+            const_a = isinstance(a, Int) and st.itv(a)[0] == st.itv(a)[1]
+            if op in ('BitAnd', 'BitOr', 'BitXor') and (isinstance(a, Lanes) or const_a) and (isinstance(b, Lanes) or const_b):
+                return self.lanes_bitop(st, op, a, b)
+            if op in ('Shr', 'Shl') and isinstance(a, Lanes) and const_b and st.itv(b)[0] % 8 == 0:
+                k = st.itv(b)[0] // 8
+                n = len(a.lanes)
+                z = [K(0, 'u8')] * min(k, n)
+                return Lanes(a.ty, (list(a.lanes[k:]) + z) if op == 'Shr' else (z + list(a.lanes[:n - k])))
+            a = self.lanes_to_int(st, a) if isinstance(a, Lanes) else a
+            b = self.lanes_to_int(st, b) if isinstance(b, Lanes) else b
         if op in ('Eq', 'Ne', 'Lt', 'Le', 'Gt', 'Ge'):
             return self.compare(st, op, a, b)
         if op == 'Cmp':
@@ -1863,6 +1961,42 @@ class Interp:
             return self.mk(st, ty, T, alo >> k, ahi >> k)
         return st.fresh(ty, alo >> k, ahi >> k, 'shr')
 
+    def mask_lanes(self, st, x, w, lm, stride, nl):
+        """x & mask where the mask keeps the low bits `lm` (= 2^k - 1) of every `stride`-th w-bit lane and clears the others;
+        x's polynomial is split into w-bit lanes by the coefficients of its monomials (each lane must have range [0, 2^w))"""
+        P = st.norm(x.p)
+        lanes = [dict() for _ in range(nl)]
+        for m_, c in P.items():
+            if c <= 0:
+                return None
+            if m_ == ():
+                for j in range(nl):
+                    cj = (c >> (w * j)) & ((1 << w) - 1)
+                    if cj:
+                        lanes[j][()] = cj
+                if c >> (w * nl):
+                    return None
+                continue
+            j = (c.bit_length() - 1) // w
+            if j >= nl or c % (1 << (w * j)):
+                return None
+            lanes[j][m_] = lanes[j].get(m_, 0) + (c >> (w * j))
+        out = {}
+        for j, L in enumerate(lanes):
+            if not L:
+                continue
+            lo, hi = st.range_of(L)
+            if lo is None or lo < 0 or hi >= (1 << w):
+                return None
+            if j % stride:
+                continue
+            if hi <= lm:
+                r = L
+            else:
+                r = self.divrem(st, 'Rem', self.mk(st, x.ty, L, lo, hi), K(lm + 1, x.ty), x.ty).p
+            out = padd(out, pscale(r, 1 << (w * j)))
+        return self.mk(st, x.ty, out)
+
     def tnum(self, st, v):
         """(value, mask) known-bits abstraction derived from the interval (common high prefix)"""
         lo, hi = st.itv(v)
@@ -1897,6 +2031,28 @@ class Interp:
             # undecided combination: decide the left operand first (forks), then re-evaluate
             ta_ = st.truth(a)
             return self.bitop(st, op, K(int(ta_), 'bool'), b, ty)
+        # x & (periodic mask whose lane is 2^k - 1): mask every lane of the polynomial (monomials are assigned to lanes by their coefficients)
+        if op == 'BitAnd':
+            for x, m in ((a, b), (b, a)):
+                mlo, mhi = st.itv(m)
+                if mlo != mhi or mlo <= 0 or st.itv(x)[0] < 0 or st.itv(x)[0] == st.itv(x)[1]:
+                    continue
+                bits_ = {'u8': 8, 'u16': 16, 'u32': 32, 'u64': 64, 'u128': 128, 'usize': 64}.get(x.ty)
+                if bits_ is None:
+                    continue
+                for w in (8, 16, 32, 64):
+                    if w >= bits_:
+                        break
+                    lm = mlo & ((1 << w) - 1)
+                    nl = bits_ // w
+                    full = sum(lm << (w * j) for j in range(nl))
+                    sub = [mlo == full, mlo == sum(lm << (w * j) for j in range(0, nl, 2)) and nl > 1]
+                    if not any(sub) or lm == 0 or (lm & (lm + 1)) != 0:
+                        continue
+                    stride = 1 if sub[0] else 2
+                    r = self.mask_lanes(st, x, w, lm, stride, nl)
+                    if r is not None:
+                        return r
         # x & (2^k - 1) is x mod 2^k (two's complement: also for negative x)
         if op == 'BitAnd':
             for x, m in ((a, b), (b, a)):
